@@ -17,7 +17,8 @@ template <typename T> struct PowerMap
     std::vector<T> a;
     T jac;
     T cut;      // all densities vanish for x_0 < cut (a phase-space cut): the weight is not finite there
-    PowerMap() : jac(T()), cut(T()) {}
+    bool fill_all;   // write the densities of all channels, not only of the enabled ones
+    PowerMap() : jac(T()), cut(T()), fill_all(false) {}
     T operator()(std::size_t channel, std::vector<T> const& rn, std::vector<T>& co, std::vector<std::size_t> const& enabled,
         std::vector<T>& dens, hep::multi_channel_map action) const
     {
@@ -26,6 +27,17 @@ template <typename T> struct PowerMap
         {
             for (std::size_t k = 0; k < co.size(); ++k) co[k] = std::pow(rn[k], T(1) / (a[channel] + T(1)));
             return T(1) + jac * co[0];
+        }
+        if (fill_all)
+        {
+            // "the vector densities must be populated with all PDFs": also those of the disabled channels
+            for (std::size_t j = 0; j < dens.size() && j < a.size(); ++j)
+            {
+                T p = T(1);
+                for (std::size_t k = 0; k < co.size(); ++k) p *= (a[j] + T(1)) * std::pow(co[k], a[j]);
+                dens[j] = (co[0] < cut) ? T() : J * p;
+            }
+            return J;
         }
         for (std::size_t j : enabled)
         {
